@@ -41,10 +41,11 @@ class SpyLog:
 class _SpyBase(urwid.Widget):
     ignore_focus = False
 
-    def _spy_init(self, sid: int, sel: bool, keys, log: SpyLog):
+    def _spy_init(self, sid: int, sel: bool, keys, log: SpyLog, xlate=None):
         self.sid = sid
         self._sel = bool(sel)
         self.keys = frozenset(keys)
+        self.xlate = dict(xlate or {})  # key given -> different, non-None key returned
         self.log = log
         self.g_plain, self.g_focus = glyphs(sid)
 
@@ -55,8 +56,9 @@ class _SpyBase(urwid.Widget):
         if self.log.on_key is not None:
             self.log.on_key(self)
         handled = key in self.keys
-        self.log.events.append(("key", self.sid, key, handled, tuple(size)))
-        return None if handled else key
+        out = None if handled else self.xlate.get(key, key)
+        self.log.events.append(("key", self.sid, key, handled, tuple(size), out))
+        return out
 
     def mouse_event(self, size, event, button, col, row, focus):
         self.log.events.append(("mouse", self.sid, event, button, col, row, bool(focus)))
@@ -73,9 +75,9 @@ class _SpyBase(urwid.Widget):
 class FlowSpy(_SpyBase):
     _sizing = frozenset([urwid.FLOW])
 
-    def __init__(self, sid, sel, keys, log, nrows=1):
+    def __init__(self, sid, sel, keys, log, nrows=1, xlate=None):
         super().__init__()
-        self._spy_init(sid, sel, keys, log)
+        self._spy_init(sid, sel, keys, log, xlate)
         self.nrows = nrows
 
     def rows(self, size, focus=False):
@@ -90,9 +92,9 @@ class FlowSpy(_SpyBase):
 class BoxSpy(_SpyBase):
     _sizing = frozenset([urwid.BOX])
 
-    def __init__(self, sid, sel, keys, log):
+    def __init__(self, sid, sel, keys, log, xlate=None):
         super().__init__()
-        self._spy_init(sid, sel, keys, log)
+        self._spy_init(sid, sel, keys, log, xlate)
 
     def render(self, size, focus=False):
         maxcol, maxrow = size
